@@ -48,6 +48,7 @@ type Case struct {
 	StepBound  uint64      `json:"step_bound"`
 	Expect     []string    `json:"expect,omitempty"` // absolute expectations (wrappers), see checkExpect
 	NilChainID bool        `json:"nil_chain_id,omitempty"`
+	Create     bool        `json:"create,omitempty"`
 }
 
 type prog struct {
@@ -65,10 +66,11 @@ type prog struct {
 	wantPre    bool
 	record     bool // record per-step states (divergence locator)
 	nilChainID bool // run KVM under a chain config whose ChainID is nil (always-oracles only, no reference run)
+	create     bool // code is init code: top-level KVM.Create instead of KVM.Call
 }
 
 func (p *prog) toCase(iset int) Case {
-	c := Case{Family: p.family, Name: p.name, ISet: iset, NilChainID: p.nilChainID, Code: fmt.Sprintf("%x", p.code), Input: fmt.Sprintf("%x", p.input), Gas: p.gas,
+	c := Case{Family: p.family, Name: p.name, ISet: iset, NilChainID: p.nilChainID, Create: p.create, Code: fmt.Sprintf("%x", p.code), Input: fmt.Sprintf("%x", p.input), Gas: p.gas,
 		Value: p.value, PreludeEnd: p.preludeEnd, StepBound: p.stepBound, Expect: p.expect}
 	for _, e := range p.extra {
 		c.Extra = append(c.Extra, extraAcct{fmt.Sprintf("%x", e.addr[:]), fmt.Sprintf("%x", e.code)})
@@ -473,7 +475,7 @@ func (k *ktracer) CaptureState(pc uint64, op kvm.OpCode, gas, cost uint64, scope
 		t.noteAddr(create2Addr(self, word32(scope.Stack.Back(3).Bytes32()), init))
 		t.lastAddr = self
 	case 0xf3: // RETURN
-		if depth >= 2 && len(scope.Contract.Code) > 0 && k.s.GetCodeSize(scope.Contract.Address()) == 0 {
+		if len(scope.Contract.Code) > 0 && k.s.GetCodeSize(scope.Contract.Address()) == 0 { // a CREATE frame returns its runtime code
 			sz := scope.Stack.Back(1)
 			if !sz.IsUint64() || sz.Uint64() > refMaxCodeSize {
 				t.bigCode = true
@@ -558,7 +560,9 @@ func runKVM(w *kworld, p *prog, iset int, count *[256]uint64) (out outcome) {
 			s.SetBalance(ka, new(big.Int).SetUint64(e.balance))
 			s.SetCode(ka, e.code)
 		}
-		s.SetCode(kcommon.Address(addrMain), p.code)
+		if !p.create {
+			s.SetCode(kcommon.Address(addrMain), p.code)
+		}
 		return s
 	}
 	s := mkState()
@@ -583,7 +587,17 @@ func runKVM(w *kworld, p *prog, iset int, count *[256]uint64) (out outcome) {
 	}
 	env := kvm.NewKVM(ctx, kvm.TxContext{Origin: kcommon.Address(addrOrigin), GasPrice: big.NewInt(gasPrice)}, s, cfg, kvm.Config{Debug: true, Tracer: tr})
 	tr.env = env
-	ret, left, err := env.Call(kvm.AccountRef(kcommon.Address(addrOrigin)), main, p.input, p.gas, new(big.Int).SetUint64(p.value))
+	var (
+		ret  []byte
+		left uint64
+		err  error
+	)
+	if p.create {
+		out.tr.noteAddr(addr20(kcrypto.CreateAddress(kcommon.Address(addrOrigin), s.GetNonce(kcommon.Address(addrOrigin)))))
+		ret, _, left, err = env.Create(kvm.AccountRef(kcommon.Address(addrOrigin)), p.code, p.gas, new(big.Int).SetUint64(p.value))
+	} else {
+		ret, left, err = env.Call(kvm.AccountRef(kcommon.Address(addrOrigin)), main, p.input, p.gas, new(big.Int).SetUint64(p.value))
+	}
 	out.status, out.errKind = classifyK(err)
 	if out.errKind == "out-of-gas" {
 		out.tr.oog = true
@@ -792,7 +806,7 @@ func (g *gtracer) CaptureState(env *gvm.EVM, pc uint64, op gvm.OpCode, gas, cost
 		t.noteAddr(create2Addr(self, wordOfBig(stack.Back(3)), init))
 		t.lastAddr = self
 	case 0xf3:
-		if depth >= 2 && len(contract.Code) > 0 && g.s.GetCodeSize(contract.Address()) == 0 {
+		if len(contract.Code) > 0 && g.s.GetCodeSize(contract.Address()) == 0 { // a CREATE frame returns its runtime code
 			sz := stack.Back(1)
 			if !sz.IsUint64() || sz.Uint64() > refMaxCodeSize {
 				t.bigCode = true
@@ -879,7 +893,9 @@ func runRef(w *gworld, p *prog, iset int, count *[256]uint64) (out outcome) {
 		s.SetCode(ga, e.code)
 	}
 	main := gcommon.Address(addrMain)
-	s.SetCode(main, p.code)
+	if !p.create {
+		s.SetCode(main, p.code)
+	}
 	out.st = gprober{s}
 	if w.evm[iset] == nil {
 		tr := &gtracer{}
@@ -901,7 +917,16 @@ func runRef(w *gworld, p *prog, iset int, count *[256]uint64) (out outcome) {
 	env := w.evm[iset]
 	env.StateDB = s
 	w.trc[iset].t, w.trc[iset].s = &out.tr, s
-	ret, left, err := env.Call(gvm.AccountRef(gcommon.Address(addrOrigin)), main, p.input, p.gas, new(big.Int).SetUint64(p.value))
+	var (
+		ret  []byte
+		left uint64
+	)
+	if p.create {
+		out.tr.noteAddr(addr20(kcrypto.CreateAddress(kcommon.Address(addrOrigin), s.GetNonce(gcommon.Address(addrOrigin)))))
+		ret, _, left, err = env.Create(gvm.AccountRef(gcommon.Address(addrOrigin)), p.code, p.gas, new(big.Int).SetUint64(p.value))
+	} else {
+		ret, left, err = env.Call(gvm.AccountRef(gcommon.Address(addrOrigin)), main, p.input, p.gas, new(big.Int).SetUint64(p.value))
+	}
 	out.status, out.errKind = classifyG(err)
 	if out.errKind == "out-of-gas" {
 		out.tr.oog = true
